@@ -1,9 +1,111 @@
 //! Direct drivers of the public API for E2 (source-level) witnesses.
 use serde_json::{json, Value};
+use swift_mt_message::errors::ParseError;
+use swift_mt_message::parser::SwiftParser;
+use swift_mt_message::traits::{SwiftField, SwiftMessageBody};
+
+pub fn err_json(e: &ParseError) -> Value {
+    let display = e.to_string();
+    match serde_json::to_value(e) {
+        Ok(v) => json!({"err": v, "display": display}),
+        Err(_) => json!({"err": null, "display": display}),
+    }
+}
+
+pub fn run_field<T: SwiftField + serde::Serialize>(content: &str, variant: Option<&str>) -> Value {
+    let r = match variant {
+        Some(v) => T::parse_with_variant(content, Some(v), None),
+        None => T::parse(content),
+    };
+    match r {
+        Ok(f) => {
+            let swift = f.to_swift_string();
+            let j = serde_json::to_value(&f).unwrap_or(Value::Null);
+            // second pass: re-parse what was emitted (content after the tag)
+            json!({"ok": true, "swift": swift, "json": j})
+        }
+        Err(e) => {
+            let mut v = err_json(&e);
+            v["ok"] = json!(false);
+            v
+        }
+    }
+}
+
+pub fn run_block4<T: SwiftMessageBody + serde::Serialize>(text: &str) -> Value {
+    match T::parse_from_block4(text) {
+        Ok(m) => {
+            let mt = m.to_mt_string();
+            let j = serde_json::to_value(&m).unwrap_or(Value::Null);
+            // round trip
+            let again = match T::parse_from_block4(&mt) {
+                Ok(m2) => {
+                    let mt2 = m2.to_mt_string();
+                    let j2 = serde_json::to_value(&m2).unwrap_or(Value::Null);
+                    json!({"ok": true, "mt": mt2, "same_json": j2 == j})
+                }
+                Err(e) => {
+                    let mut v = err_json(&e);
+                    v["ok"] = json!(false);
+                    v
+                }
+            };
+            json!({"ok": true, "mt": mt, "json": j, "reparse": again})
+        }
+        Err(e) => {
+            let mut v = err_json(&e);
+            v["ok"] = json!(false);
+            v
+        }
+    }
+}
+
+pub fn run_validate<T: SwiftMessageBody + serde::Serialize>(text: &str) -> Value {
+    match T::parse_from_block4(text) {
+        Ok(m) => {
+            let all: Vec<String> = m.validate_network_rules(false).iter().map(|e| e.error_code().to_string()).collect();
+            let first: Vec<String> = m.validate_network_rules(true).iter().map(|e| e.error_code().to_string()).collect();
+            json!({"ok": true, "codes": all, "first": first})
+        }
+        Err(e) => {
+            let mut v = err_json(&e);
+            v["ok"] = json!(false);
+            v
+        }
+    }
+}
+
+/// Full message text through the typed parser and back.
+pub fn run_full<T: SwiftMessageBody + serde::Serialize + Clone + std::fmt::Debug + serde::de::DeserializeOwned>(text: &str) -> Value
+where
+    T: 'static,
+{
+    match SwiftParser::parse::<T>(text) {
+        Ok(m) => {
+            let mt = m.to_mt_message();
+            json!({"ok": true, "mt": mt})
+        }
+        Err(e) => {
+            let mut v = err_json(&e);
+            v["ok"] = json!(false);
+            v
+        }
+    }
+}
 
 pub fn run(item: &Value) -> Value {
     let op = item["op"].as_str().unwrap_or("");
+    let ty = item["type"].as_str().unwrap_or("");
     match op {
+        "field" => {
+            let content = item["content"].as_str().unwrap_or("");
+            let variant = item["variant"].as_str();
+            crate::api_gen::field(ty, content, variant).unwrap_or(json!({"error": "unknown field type"}))
+        }
+        "block4" => crate::api_gen::block4(ty, item["text"].as_str().unwrap_or("")).unwrap_or(json!({"error": "unknown message type"})),
+        "validate" => crate::api_gen::validate(ty, item["text"].as_str().unwrap_or("")).unwrap_or(json!({"error": "unknown message type"})),
+        "full" => crate::api_gen::full(ty, item["text"].as_str().unwrap_or("")).unwrap_or(json!({"error": "unknown message type"})),
+        "types" => json!({"fields": crate::api_gen::FIELD_TYPES, "messages": crate::api_gen::MESSAGE_TYPES}),
         _ => json!({"error": format!("unknown op {}", op)}),
     }
 }
